@@ -5,7 +5,7 @@ import gen
 PID = 'C03'
 RULE = ('each evaluation is one (expression e, start index i, offset k) triple on one or two generated traces: (reval e k) at i is '
         'compared with e evaluated after explicitly stepping to i+k (oracle, same interpreter), indices before/after are compared, '
-        'out-of-range offsets must give #f without evaluating e (print-instrumented), (e@j)@k is compared with e@(j+k), and for e that steps a trace itself the positions after e@k must be the positions before; every '
+        'out-of-range offsets must give #f without evaluating e (print-instrumented), (e@j)@k is compared with e@(j+k), and for e that steps a trace itself the positions after e@k must be the positions before; 17..24 relative evaluations nested in each other restore every position; every '
         'command is also run on the extracted Coq model. distinct = distinct (e,i,k); non-trivial = e reads a signal or INDEX/TS')
 
 
@@ -69,6 +69,18 @@ def gen_case(rng, cid, two, per):
             b3 = len(cmds)
             cmds.append(['evalstr', '111', f'(list (reval (do {stp} {e}) {k}) {ie})'])
             checks.append(('moving', b3, f'(do {stp} {e})', i, k))
+        # deep nesting: 17..24 relative evaluations inside each other, alternating +1 / -1; every one restores its position
+        if rng.random() < 0.25 and minlen >= 2:
+            d = rng.randrange(17, 25)
+            first = 1 if i + 1 <= minlen - 1 else -1
+            offs = [first if q % 2 == 0 else -first for q in range(d)]      # outermost first
+            net = sum(offs)
+            deep = e
+            for o in reversed(offs):
+                deep = f'(reval {deep} {o})'
+            b4 = len(cmds)
+            cmds.append(['evalstr', '111', f'(list {deep} (reval {e} {net}) {ie})'])
+            checks.append(('deep', b4, e, i, d))
         cmds.append(['evalstr', '111', f'(step {-i})'])
     return {'id': cid, 'cmds': cmds, 'checks': checks, 'tids': tids}
 
@@ -122,6 +134,14 @@ def oracle(case, impl):
                 want = '( ' + 'I%d ' % i * n + ')'
                 if lib.canon(a[1]) != lib.canon(want):
                     return f'indices after (reval {e} {k}) at {i}, where e moves a trace itself: {a[1]} expected {want} (positions must be restored whatever e did)'
+            elif kind == 'deep':
+                if len(res) <= base or not res[base].startswith('ok'):
+                    continue
+                a = split_list(res[base])
+                want = '( ' + 'I%d ' % i * n + ')'
+                if lib.canon(a[0]) != lib.canon(a[1]) or lib.canon(a[2]) != lib.canon(want):
+                    return (f'{k} relative evaluations nested in each other (offsets alternating +1/-1) around e={e} at index {i}: value {a[0]} '
+                            f'expected {a[1]}, indices afterwards {a[2]} expected {want}')
             else:
                 if len(res) <= base or not res[base].startswith('ok'):
                     continue
